@@ -1,5 +1,6 @@
 mod chain;
 mod conc;
+mod crash;
 mod config;
 mod crypto;
 mod live;
@@ -58,6 +59,10 @@ fn main() {
         "outage" => {
             outage::run(seed, thorough, &mut rep);
             rep.finish("scripted bitcoind outages (whole node / RPC interface at the i-th call) on the request path and on the block-processing path, with and without blocks mined meanwhile, under the deterministic scheduler; the observable state after every act is compared with the model; 'blocked forever' is decided structurally", false);
+        }
+        "crash" => {
+            crash::run(seed, thorough, &mut rep);
+            rep.finish("generated histories (registrations, submissions, multi-block polls with and without a failing block download); for every operation, a crash at every durable-write point (before / after each statement or transaction commit, hook H2/H3), restart on the same file through the real bootstrap + ChainMonitor catch-up, retry of the interrupted operation, rest of the history; database after the crash compared with the model's prefix of the write log; final state compared with the uninterrupted run", false);
         }
         "slots" => {
             slots::run(seed, thorough, &mut rep);
